@@ -6,6 +6,9 @@ TraceInit == tid \in 1..NTraces /\ l = 1 /\ InitWith(Traces[tid].scn.scn)
 TGet == /\ IsEvent("Get") /\ Get
         /\ E.status = 200 /\ E.ctype = "json" /\ {E.keys[k] : k \in DOMAIN E.keys} = Keys /\ Len(E.keys) = Cardinality(Keys)
         /\ E.same_as_direct = TRUE
-TraceNext == TGet
+\* generate_spec() called directly before the additional endpoint was added (endpoints = "main+late")
+TEarly == /\ IsEvent("Early") /\ scn.endpoints = "main+late" /\ gets = <<>>
+          /\ {E.keys[k] : k \in DOMAIN E.keys} = EarlyKeys /\ Len(E.keys) = Cardinality(EarlyKeys) /\ UNCHANGED vars
+TraceNext == TGet \/ TEarly
 TraceConstraint == Stable /\ Complete /\ Progress
 =============================================================================
